@@ -2,10 +2,12 @@ import Qx.Driver.Proto
 import Qx.Xml.Tree
 import Qx.Xml.Canon
 import Qx.Xml.Parse
+import Qx.Xml.Writer
 /-!
 Driver ops for the XML text layer (`xml-…` lines of the C01 driver): command word, one blank (or TAB), argument:
 
   xml-esc-text     <hex>    → hex of `escText`
+  xml-esc-text-cr  <hex>    → hex of `escTextCr`                      (qxmpp's writeXmlTextElement(w, name, value))
   xml-esc-attr     <hex>    → hex of `escAttr`
   xml-unesc        <hex>    → hex of `unesc`
   xml-render       <tree>   → hex of `render t`                      (byte-exact against QXmlStreamWriter)
@@ -15,7 +17,9 @@ Driver ops for the XML text layer (`xml-…` lines of the C01 driver): command w
   xml-parse-plain  <hexdoc> → canon of `parse doc` | none             (QDom, namespace processing off)
 
 hex = lower-case hex of UTF-8, `-` for the empty string; <tree> = the encoding of `Qx.Xml.canon`
-(Qx/Xml/Canon.lean) read literally: empty and adjacent text nodes are kept as given.
+(Qx/Xml/Canon.lean) read literally: empty and adjacent text nodes are kept as given; `(R <hex>)` is a
+text node written by `writeXmlTextElement(w, name, value)` (CR as `&#13;`), `(T <hex>)` one written by `writeCharacters`.
+  xml-parse-std    <hexdoc> → canon of `parseStd doc` | none          (a reader with line-end normalisation: QXmlStreamReader)
 -/
 namespace Qx.Driver.XmlOps
 open Qx.Xml
@@ -49,11 +53,12 @@ def decodeAttrs : Nat → List String → Option (List (Str × Str) × List Stri
     | _ => none
 
 mutual
-  def decodeNode : Nat → List String → Option (Node × List String)
+  def decodeNode : Nat → List String → Option (WNode × List String)
     | 0, _ => none
     | f + 1, ts =>
       match ts with
-      | "(" :: "T" :: w :: ")" :: rest => (unhexStr w).map fun s => (Node.text s, rest)
+      | "(" :: "T" :: w :: ")" :: rest => (unhexStr w).map fun s => (WNode.text false s, rest)
+      | "(" :: "R" :: w :: ")" :: rest => (unhexStr w).map fun s => (WNode.text true s, rest)
       | "(" :: "E" :: w :: "(" :: rest =>
         match unhexStr w, decodeAttrs (rest.length + 1) rest with
         | some n, some a =>
@@ -62,14 +67,14 @@ mutual
             match decodeNodes f rest2 with
             | some k =>
               match k.2 with
-              | ")" :: rest3 => some (Node.elem n a.1 k.1, rest3)
+              | ")" :: rest3 => some (WNode.elem n a.1 k.1, rest3)
               | _ => none
             | none => none
           | _ => none
         | _, _ => none
       | _ => none
   /-- nodes up to the closing `)` of the list -/
-  def decodeNodes : Nat → List String → Option (List Node × List String)
+  def decodeNodes : Nat → List String → Option (List WNode × List String)
     | 0, _ => none
     | f + 1, ts =>
       match ts with
@@ -83,7 +88,7 @@ mutual
         | none => none
 end
 
-def decodeTree (s : String) : Option Node :=
+def decodeTree (s : String) : Option WNode :=
   let ts := tokenize s.toList
   match decodeNode (ts.length + 1) ts with
   | some r => if r.2.isEmpty then some r.1 else none
@@ -112,21 +117,23 @@ def step (line : String) : Option String :=
   let w := ca.2
   match ca.1 with
   | "xml-esc-text" => some (onStr w fun s => hexOf (escText s))
+  | "xml-esc-text-cr" => some (onStr w fun s => hexOf (escTextCr s))
   | "xml-esc-attr" => some (onStr w fun s => hexOf (escAttr s))
   | "xml-unesc" => some (onStr w fun s => hexOf (unesc s))
   | "xml-render" =>
     some (match decodeTree w with
-      | some t => hexOf (render t)
+      | some t => hexOf (renderW t)
       | none => "bad-tree")
   | "xml-render-parse" =>
     some (match decodeTree w with
-      | some t => showTree ((parse (render t)).map qdomView)
+      | some t => showTree ((parse (renderW t)).map qdomView)
       | none => "bad-tree")
   | "xml-canon" =>
     some (match decodeTree w with
-      | some t => canon t
+      | some t => canon t.erase
       | none => "bad-tree")
   | "xml-parse" => some (onStr w fun s => showTree ((parse s).map qdomView))
+  | "xml-parse-std" => some (onStr w fun s => showTree (parseStd s))
   | "xml-parse-plain" => some (onStr w fun s => showTree (parse s))
   | _ => none
 
